@@ -149,6 +149,21 @@ impl<'a, D: DataT> Ctx<'a, D> {
     }
 }
 
+/// Return the closure for a filter argument `arg` of a call made in context `ctx`.
+///
+/// If `arg` is itself just a filter argument `f` of the caller, pass `f` on instead of
+/// wrapping it into a new closure. Otherwise, `def r(f): ... r(f) ...` would
+/// allocate a new closure (pointing to the previous one) at every recursive call,
+/// taking memory linear in the number of calls.
+fn fun_arg<'a, D: DataT>(arg: &Id, ctx: &Ctx<'a, D>) -> (Id, Ctx<'a, D>) {
+    if let Ast::Var(v) = &ctx.lut().terms[arg.0] {
+        if let Some(Bind::Fun((id, vars))) = ctx.vars.get(*v) {
+            return (*id, ctx.with_vars(vars.clone()));
+        }
+    }
+    (*arg, ctx.clone())
+}
+
 /// Enhance the context `ctx` with variables bound to the outputs of `args` executed on `cv`,
 /// and return the enhanced contexts together with the original value of `cv`.
 ///
@@ -165,14 +180,14 @@ fn bind_vars<'a, D: DataT, T: 'a + Clone>(
             (ctx, cv.1),
             |y, (ctx, v)| Ok((ctx.cons_var(y?), v)),
         ),
-        Some((Arg::Fun(arg), [])) => box_once(Ok((ctx.cons_fun((*arg, cv.0)), cv.1))),
+        Some((Arg::Fun(arg), [])) => box_once(Ok((ctx.cons_fun(fun_arg(arg, &cv.0)), cv.1))),
         Some((Arg::Var(arg), rest)) => flat_map_then_with(
             arg.run((cv.0.clone(), proj(&cv.1))),
             (ctx, cv),
             move |y, (ctx, cv)| bind_vars(rest, ctx.cons_var(y), cv, proj),
         ),
         Some((Arg::Fun(arg), rest)) => {
-            bind_vars(rest, ctx.cons_fun((*arg, cv.0.clone())), cv, proj)
+            bind_vars(rest, ctx.cons_fun(fun_arg(arg, &cv.0)), cv, proj)
         }
         None => box_once(Ok((ctx, cv.1))),
     }
